@@ -31,7 +31,7 @@ def supported(f, kind):
 
 class C17(Prop):
     id = 'C17'
-    rule_added = '2%: 250-450 supplied variables that the formula does not use. Offline objects are evaluated again on a shorter (down to one sample) and on a longer trace. Dense online feeds also staggered (variables start at different samples) and with an idle poll. 20% of the dense online cases feed the inputs as (nested) fields of one object-typed variable.'
+    rule_added = 'Enumerated: wide specifications (14-16 chained operands or nested operators of each kind; the work done, counted in rtamt function bodies entered, must stay within 300 per syntax node) and deep ones (190-320 operands/levels; must return normally) on the four monitor kinds. 2%: 250-450 supplied variables that the formula does not use. Offline objects are evaluated again on a shorter (down to one sample) and on a longer trace. Dense online feeds also staggered (variables start at different samples) and with an idle poll. 20% of the dense online cases feed the inputs as (nested) fields of one object-typed variable.'
     rule = ('random formulas over the whole operator alphabet x the 6 monitor configurations {discrete offline, '
             'discrete online, discrete online after pastify, dense offline, dense online, dense online after '
             'pastify} x degenerate but well-formed data shapes (one-sample traces, a declared variable the formula '
@@ -86,7 +86,7 @@ class C17(Prop):
                 'feed': rng.choice(['disjoint', 'disjoint', 'repeat-frontier', 'frontier-only', 'staggered', 'idle-poll']),
                 'stagger': [rng.randint(0, 2) for _ in range(4)], 'structs': rng.random() < 0.2}
 
-    def judge(self, case):
+    def judge_small(self, case):
         v = Verdict()
         f, kind, data, shape = case['formula'], case['kind'], case['data'], case['shape']
         used = lang.variables(f)
@@ -207,6 +207,96 @@ class C17(Prop):
             v.bad('unsupported-yields-value', '%s [%s]: unsupported construct was not rejected, first evaluation '
                   'returned %r' % (text, kind, r if not isinstance(r, list) else r[:4]), known)
         return v
+
+
+    # ---------------------------------------------------------------------------------------------------------
+    # wide and deep specifications
+
+    WIDE = (('sum', 14), ('sum', 16), ('not', 14), ('not', 16), ('xor', 14), ('mix', 16), ('neg', 14), ('abs', 16))
+    DEEP = (('and', 260), ('or', 320), ('sum', 260), ('once', 190))
+
+    def big_text(self, shape, k):
+        """(text, number of syntax nodes, nesting depth) of a large but perfectly regular specification."""
+        if shape == 'sum':
+            return '(%s) <= 10' % ' + '.join(['x', 'y'] * (k // 2)), 2 * k + 1, k
+        if shape in ('not', 'once', 'neg', 'abs'):
+            pre = {'not': 'not (', 'once': 'once (', 'neg': '- (', 'abs': 'abs('}[shape]
+            if shape in ('neg', 'abs'):
+                return '%sx%s >= 1' % (pre * k, ')' * k), k + 3, k
+            return '%s(x >= 1)%s' % (pre * k, ')' * k), k + 3, k
+        if shape in ('and', 'or', 'xor'):
+            return (' %s ' % shape).join('(%s >= %d)' % ('xy'[i % 2], i % 4) for i in range(k)), 4 * k, k
+        if shape == 'mix':
+            ops = ['and', 'or', 'xor', 'implies', 'iff']
+            out = '(x >= 0)'
+            for i in range(k):
+                out = '(%s) %s (y >= %d)' % (out, ops[i % len(ops)], i % 3)
+            return out, 4 * k, k
+        raise ValueError(shape)
+
+    def run_big(self, kind, text):
+        m = drive.Mon({'dt_off': 'dt', 'dt_on': 'dt', 'ct_off': 'ct', 'ct_on': 'ct'}[kind],
+                      {'text': 'out = ' + text, 'vars': ['x', 'y']})
+        xs, ys = [1.0, 2.0, 0.5, 3.0], [0.0, 1.5, 2.0, 1.0]
+        if kind == 'dt_off':
+            return m.evaluate({'time': [0, 1, 2, 3], 'x': xs, 'y': ys})
+        if kind == 'dt_on':
+            return [m.update(i, [('x', xs[i]), ('y', ys[i])]) for i in range(4)]
+        if kind == 'ct_off':
+            return m.evaluate(['x', [[float(i), xs[i]] for i in range(4)]], ['y', [[float(i), ys[i]] for i in range(4)]])
+        out = m.update(['x', [[0.0, xs[0]], [1.0, xs[1]]]], ['y', [[0.0, ys[0]], [1.0, ys[1]]]])
+        return out + m.update(['x', [[2.0, xs[2]], [3.0, xs[3]]]], ['y', [[2.0, ys[2]], [3.0, ys[3]]]])
+
+    def judge_big(self, case):
+        """`wide`: 14-16 chained operands / nested operators; besides returning normally, the work done (rtamt
+        function bodies entered, a logical step count) must stay within 300 per syntax node - a linear monitor needs a
+        few dozen per node; doubling with every further operand is how 'never returns' looks at this size.
+        `deep`: hundreds of operands or levels; must return normally."""
+        from rtverif.props.base import work_counter
+        v = Verdict()
+        kind, shape, k = case['kind'], case['shape'], case['k']
+        text, nodes, depth = self.big_text(shape, k)
+        v.nontrivial = True
+        v.info['big:%s' % case['big']] = 1
+        w0 = work_counter()
+        try:
+            self.run_big(kind, text)
+        except Exception as e:
+            if drive.is_rtamt_exc(e):
+                v.skip = 'large specification rejected cleanly (%s)' % str(e)[:60]
+                return v
+            known = None
+            if isinstance(e, RecursionError) and depth >= 150:
+                known = 'D-recursion-depth'
+            v.bad('crash:' + type(e).__name__, 'out = %s [%s; %s, %d operands/levels]: raised %s' % (
+                text[:80] + ' ...', kind, shape, k, type(e).__name__), known)
+            return v
+        w1 = work_counter()
+        if case['big'] == 'wide' and w0 is not None and w1 is not None:
+            v.info['big:work-measured'] = 1
+            if w1 - w0 > 300 * nodes:
+                v.bad('work-explodes', 'out = %s [%s; %s, %d operands/levels, %d syntax nodes, 4 samples]: %d rtamt function '
+                      'bodies were entered (more than 300 per node; a linear monitor needs a few dozen per node)' % (
+                          text[:80] + ' ...', kind, shape, k, nodes, w1 - w0))
+        return v
+
+    def judge(self, case):
+        if case.get('big'):
+            return self.judge_big(case)
+        return self.judge_small(case)
+
+    def shrinkable(self, case):
+        return not case.get('big') and 'formula' in case
+
+    def extra(self, ctx):
+        if ctx.shard != 0:
+            return
+        for kind in ('dt_off', 'dt_on', 'ct_off', 'ct_on'):
+            for shape, k in self.WIDE:
+                if shape in ('neg', 'abs', 'sum', 'not', 'xor', 'mix'):
+                    self.check(ctx, {'big': 'wide', 'kind': kind, 'shape': shape, 'k': k})
+            for shape, k in self.DEEP:
+                self.check(ctx, {'big': 'deep', 'kind': kind, 'shape': shape, 'k': k})
 
 
 PROP = C17()
